@@ -16,8 +16,8 @@ RULE = ("one case = (method, dtype, sign of h, state shape, program seed, call h
         "non-trivial = >=1 accepted step; distinct by (method,dtype,sign,shape,seed,history)")
 ASSUMPTIONS = ["explicit threshold 64*eps*(1+sum|a_ij|)*(1+max|k|)*(1+L|h|); implicit threshold 4*desired_tol + rounding, "
                "desired_tol recomputed from the inputs exactly as the library's step() does"]
-FLOORS = {"quick": {"accepted_steps": 300, "stage_equations_checked": 1500, "newton_failure_then_retry": 1, "second_calls": 60, "insitu_steps": 300, "stiff_reduced_precision_steps": 15, "increment_components_checked_mixed_scale": 80},
-          "thorough": {"accepted_steps": 3000, "stage_equations_checked": 15000, "newton_failure_then_retry": 5, "second_calls": 600, "insitu_steps": 3000, "stiff_reduced_precision_steps": 120, "increment_components_checked_mixed_scale": 320}}
+FLOORS = {"quick": {"accepted_steps": 300, "stage_equations_checked": 1500, "newton_failure_then_retry": 1, "second_calls": 60, "insitu_steps": 300, "stiff_reduced_precision_steps": 15, "increment_components_checked_mixed_scale": 80, "stiff_small_solution_steps": 20},
+          "thorough": {"accepted_steps": 3000, "stage_equations_checked": 15000, "newton_failure_then_retry": 5, "second_calls": 600, "insitu_steps": 3000, "stiff_reduced_precision_steps": 120, "increment_components_checked_mixed_scale": 320, "stiff_small_solution_steps": 120}}
 K_EXPL = 64.0
 K_IMPL = 4.0
 K_SPLIT = 128.0
@@ -75,6 +75,15 @@ def gen_cases(tier, seed):
     # reduced precision + stiffness: in a float32 run a stage solve is still to be accepted only when the stage equations hold to the
     # stated solver tolerance (h*|df/dy| up to 1e5 turns a slope rounded to float32 into a residual far above it)
     small = [n for n in impl if M[n]["stages"] <= 3]
+    for r in range(80 if tier == "quick" else 500):
+        # the library's own controller in place, a SMALL solution and rtol >> atol: a solve the step routine flags as unconverged stays unconverged
+        # whatever a looser criterion elsewhere thinks of it
+        name = impl[r % len(impl)]
+        if M[name]["stages"] >= 10:
+            name = "CrankNicolson"
+        cases.append(dict(kind="stiff32", method=name, dtype="float64", lam=float(10 ** rng.uniform(2, 6)), h=float(rng.choice([-1, 1])) * float(rng.choice([0.05, 0.1, 0.5, 2.0])),
+                          offset=float(rng.choice([0.0, 0.0, 0.5, 2.0])), tol=0.0, sc=float(rng.choice([1e-3, 1e-5])), rtol=float(rng.choice([1e-3, 1e-4, 1e-6])),
+                          atol=float(rng.choice([1e-12, 1e-13, 1e-14])), t0=float(rng.uniform(-1, 1)), pseed=int(rng.integers(1 << 30)), cost=3))
     for r in range(90 if tier == "quick" else 600):
         name = small[r % len(small)]
         cases.append(dict(kind="stiff32", method=name, dtype="float32" if r % 5 else "float64", lam=float(10 ** rng.uniform(3, 5.5)), h=float(rng.choice([-1, 1])) * float(rng.choice([0.25, 0.1, 0.5])),
@@ -215,25 +224,37 @@ def _run_stiff32(spec):
     rec = util.Rec(sig="stiff32|%s|%s|%d|%s|%s" % (spec["method"], spec["dtype"], int(np.log10(lam)), spec["offset"], spec["pseed"] % 97))
     feats = {"method": spec["method"], "family": info["family"], "dtype": spec["dtype"], "sign": 1 if spec["h"] > 0 else -1, "kind": "stiff32"}
 
+    sc = float(spec.get("sc", 1.0))      # solution magnitude (u = sc*y): with rtol >> atol the tolerance in force is atol + rtol*|u| << atol + rtol
+
     def f(t, y, **kw):
         # the stiff part is autonomous: the rounding of a stage TIME to the run's precision then enters with |d f/d t| <= 1, not with lam
+        if sc != 1.0:
+            z = y / y.dtype.type(sc)
+            return y.dtype.type(sc) * np.stack([-lam * (z[0] - 0.7) - z[0] ** 3 + z[1], -z[1] + np.sin(t)])
         return np.stack([-lam * (y[0] - 0.7) - y[0] ** 3 + y[1], -y[1] + np.sin(t)])
 
     def jac(t, y, **kw):
-        return np.array([[-lam - 3 * y[0] ** 2, 1.0], [0.0, -1.0]])
+        z = y / sc
+        return np.array([[-lam - 3 * z[0] ** 2, 1.0], [0.0, -1.0]])
     rhs = de.DiffRHS(f)
     rhs.hook_jacobian_call(jac)
     kw = dict(rtol=spec["tol"], atol=spec["tol"]) if spec["tol"] else {}
+    if spec.get("rtol"):
+        kw = dict(rtol=spec["rtol"], atol=spec["atol"])
+        feats["tolerance_regime"] = "rtol>>atol, |y|~%g" % sc
     intg = info["cls"]((2,), dtype=dt, **kw)
     t0 = dt.type(spec["t0"])
-    y0 = np.array([0.7 + spec["offset"], 0.5], dtype=dt)
+    y0 = (sc * np.array([0.7 + spec["offset"], 0.5])).astype(dt)
     try:
         _, (dT, dY) = intg(rhs, t0, y0.copy(), {}, dt.type(spec["h"]))
-    except FailedToMeetTolerances:
-        rec.bump("stiff_reduced_precision_refused")
+    except (FailedToMeetTolerances, np.linalg.LinAlgError) as e_:
+        # no step is handed back (a singular iteration matrix surfacing as LinAlgError is a refusal too): nothing to judge
+        rec.bump("stiff_reduced_precision_refused" if isinstance(e_, FailedToMeetTolerances) else "stiff_refused_LinAlgError")
         return rec.out()
     rec.bump("accepted_steps")
     rec.bump("stiff_reduced_precision_steps" if spec["dtype"] == "float32" else "stiff_control_steps")
+    if spec.get("rtol"):
+        rec.bump("stiff_small_solution_steps")
     rec.nontrivial = True
     A = np.asarray(info["cls"].tableau_intermediate, dtype=np.longdouble)
     b = np.asarray(info["cls"].tableau_final, dtype=np.longdouble)[0, 1:]
